@@ -23,7 +23,7 @@ ASSUMPTIONS = ["active control points are determined by the reference span (nvmo
 FLOORS = {'quick': {'hull': 2500, 'bbox-contains': 2500, 'bbox-equals-net': 200, 'clamped-ends': 300, 'length': 40,
                     'find_ctrlpts': 800, 'hull-via-meval': 1500},
           'thorough': {'hull': 25000, 'hull-via-meval': 15000}}
-MANDATORY_TAGS = ['pdim1', 'pdim2', 'pdim3', 'rational', 'dim2', 'dim3', 'unclamped', 'clamped', 'edit-then-read']
+MANDATORY_TAGS = ['pdim1', 'pdim2', 'pdim3', 'rational', 'dim2', 'dim3', 'unclamped', 'clamped', 'edit-then-read', 'length:after-partial-evaluate']
 TECHNIQUE = ("runtime monitoring: separating-hyperplane oracle on every evaluated point (targeted queries and all points "
              "intercepted at evaluators.*.evaluate) against the active control points of its knot span; min/max oracle for bbox; "
              "chord/polygon bounds for length_curve")
@@ -237,8 +237,12 @@ def check(case, ctx):
     if pdim == 1 and not sd['rational']:
         for ss in (2, 7, 40):
             o.sample_size = ss
-            L = operations.length_curve(o)
             a, b = G.domains_of(o)[0]
+            if rng.random() < 0.4:
+                # the curve has last been sampled on a part of its domain (documented evaluate(start=, stop=)); its length is still its length
+                o.evaluate(start=a + 0.4 * (b - a), stop=a + 0.6 * (b - a))
+                ctx.tag('length:after-partial-evaluate')
+            L = operations.length_curve(o)
             pa, pb = S.point((a,)), S.point((b,))
             chord = math.sqrt(sum(float(x - y) ** 2 for x, y in zip(pa, pb)))
             idx = sorted(S.net)
